@@ -177,6 +177,14 @@ def check(ck):
                 "the stop sentinel" if sent else "a task", tag, ex_, dn,
                 "the task is lost or run twice" if ex_ != want_ex else "join()/stop() accounting is broken (unfinished task count never returns to zero)"),
             q.loc(frun, node))
+    # the worker survives a failing task: the try around execute() has a handler for Exception (or broader)
+    for en in execs:
+        hts = [t for t in ast.walk(frun.node) if isinstance(t, ast.Try) and q.try_body_contains(t, en.ast)]
+        broad = any(h.type is None or dump(h.type) in ("Exception", "BaseException") for t in hts for h in t.handlers)
+        ck.require(broad, "C09.2", "%s: a failing task does not end the worker" % q.fn(frun), "except Exception around future.execute(...)",
+                   "the worker loop does not catch the ordinary exceptions of a task (handlers: %s): a failing task ends its worker thread, and "
+                   "the tasks still queued wait until another enqueue starts a new worker"
+                   % ([dump(h.type) for t in hts for h in t.handlers if h.type is not None] or "none"), q.loc(frun, en))
     ck.floor("C09.2", 3)
     # execute receives the unpacked item
     for n in execs:
